@@ -165,9 +165,9 @@ class Interp:
             va, vb = self.ev(a), self.ev(b)
             kinds = [x[0] for x in (l, r, va, vb)]
             if 'v' in kinds:
-                return ('v', ['(if %s then %s else %s)' % (op(self.comp(l, k), self.comp(r, k)), self.comp(va, k), self.comp(vb, k))
+                return ('v', ['(Num.select (decide (%s)) %s %s)' % (op(self.comp(l, k), self.comp(r, k)), self.comp(va, k), self.comp(vb, k))
                               for k in range(3)])
-            return ('s', '(if %s then %s else %s)' % (op(l[1], r[1]), va[1], vb[1]))
+            return ('s', '(Num.select (decide (%s)) %s %s)' % (op(l[1], r[1]), va[1], vb[1]))
         if f == 'torch.cat':
             parts = [self.ev(e) for e in node.args[0].elts]
             if all(p[0] == 's' for p in parts) and len(parts) == 3:
